@@ -1408,7 +1408,15 @@ fn rewrite_float_lit(
     let symbol = token_lit.symbol.as_str();
     let suffix = token_lit.suffix.as_ref().map(|s| s.as_str());
 
-    let float_parts = parse_float_symbol(symbol).unwrap();
+    // The lexer classifies some malformed literals (e.g. `0b1f32`) as floats: leave them alone.
+    let Ok(float_parts) = parse_float_symbol(symbol) else {
+        return wrap_str(
+            context.snippet(span).to_owned(),
+            context.config.max_width(),
+            shape,
+        )
+        .max_width_error(shape.width, span);
+    };
     let FloatSymbolParts {
         integer_part,
         fractional_part,
